@@ -32,7 +32,7 @@ use rustc_middle::ty::{self, EarlyBinder, GenericArgsRef, Instance, InstanceKind
 use rustc_span::Span;
 use std::collections::{BTreeMap, BTreeSet, HashMap, HashSet, VecDeque};
 
-const DRIVER_VERSION: &str = "nfsa-driver-3";
+const DRIVER_VERSION: &str = "nfsa-driver-8";
 
 struct Cb;
 
@@ -76,6 +76,41 @@ fn ty_s(ty: Ty<'_>) -> String {
 
 fn path_s(tcx: TyCtxt<'_>, d: DefId) -> String {
     with_no_trimmed_paths!(tcx.def_path_str(d))
+}
+
+/// The type itself plus every type nested in references, ADT arguments, tuples, slices, arrays.
+fn component_types<'tcx>(t: Ty<'tcx>, out: &mut Vec<Ty<'tcx>>, depth: usize) {
+    if depth > 8 || out.contains(&t) {
+        return;
+    }
+    match t.kind() {
+        ty::Ref(_, inner, _) => component_types(*inner, out, depth + 1),
+        ty::Adt(_, args) => {
+            out.push(t);
+            for a in args.iter() {
+                if let Some(x) = a.as_type() {
+                    component_types(x, out, depth + 1);
+                }
+            }
+        }
+        ty::Tuple(ts) => {
+            for x in ts.iter() {
+                component_types(x, out, depth + 1);
+            }
+        }
+        ty::Slice(x) | ty::Array(x, _) => component_types(*x, out, depth + 1),
+        ty::Param(_) | ty::Alias(..) => {}
+        _ => out.push(t),
+    }
+}
+
+fn canon_path(tcx: TyCtxt<'_>, d: DefId) -> String {
+    let c = format!("{}{}", tcx.crate_name(d.krate), tcx.def_path(d).to_string_no_crate_verbose());
+    if let Some(rest) = c.strip_prefix("serde_core::") {
+        format!("serde::{}", rest)
+    } else {
+        c
+    }
 }
 
 fn args_j<'tcx>(args: GenericArgsRef<'tcx>) -> J {
@@ -582,6 +617,7 @@ fn extract<'tcx>(tcx: TyCtxt<'tcx>) -> J {
     let mut bodies: Vec<(String, J)> = Vec::new();
     let mut promoted: Vec<(String, J)> = Vec::new();
     let mut by_path: HashMap<String, DefId> = HashMap::new();
+    let mut aliases: Vec<J> = Vec::new();
 
     for ldid in tcx.hir_body_owners() {
         let did = ldid.to_def_id();
@@ -591,6 +627,22 @@ fn extract<'tcx>(tcx: TyCtxt<'tcx>) -> J {
         }
         let path = path_s(tcx, did);
         by_path.insert(path.clone(), did);
+        // alias usable as a root spec: "@<trait path>|<self type>|<method name>"
+        if let Some(assoc) = tcx.opt_associated_item(did) {
+            if let Some(imp) = assoc.impl_container(tcx) {
+                if matches!(tcx.def_kind(imp), DefKind::Impl { of_trait: true }) {
+                    let tr = tcx.impl_trait_ref(imp).instantiate_identity().skip_norm_wip();
+                    let self_ty = tcx.type_of(imp).instantiate_identity().skip_norm_wip();
+                    let canon = format!("{}{}", tcx.crate_name(tr.def_id.krate), tcx.def_path(tr.def_id).to_string_no_crate_verbose());
+                    let canon = if let Some(rest) = canon.strip_prefix("serde_core::") { format!("serde::{}", rest) } else { canon };
+                    let alias = format!("@{}|{}|{}", canon, ty_s(self_ty), assoc.name());
+                    if !tcx.is_automatically_derived(imp) || canon.ends_with("Serialize") {
+                        aliases.push(J::S(alias.clone()));
+                    }
+                    by_path.insert(alias, did);
+                }
+            }
+        }
         let body = tcx.optimized_mir(did);
         let env = TypingEnv::post_analysis(tcx, did);
         let mut o = vec![
@@ -769,7 +821,7 @@ fn extract<'tcx>(tcx: TyCtxt<'tcx>) -> J {
         let _ = path;
         if let Some(assoc) = tcx.opt_associated_item(*did) {
             if let Some(t) = assoc.trait_item_def_id() {
-                if path_s(tcx, t) == "serde::ser::Serialize::serialize" {
+                if canon_path(tcx, t) == "serde::ser::Serialize::serialize" {
                     serialize_method = Some(t);
                     break;
                 }
@@ -857,17 +909,21 @@ fn extract<'tcx>(tcx: TyCtxt<'tcx>) -> J {
                             let mut handled = false;
                             // generic serializer: follow value types to their Serialize impls
                             if let Some(sm_def) = serialize_method {
-                                let pth = path_s(tcx, *d);
+                                let pth = canon_path(tcx, *d);
                                 if pth.starts_with("serde::ser::") {
                                     if let Some(s_param) = inst.args.iter().last() {
+                                        let mut tys: Vec<Ty<'tcx>> = Vec::new();
                                         for a in args.iter().skip(1) {
                                             if let Some(t) = a.as_type() {
-                                                let nargs = tcx.mk_args(&[t.into(), s_param]);
-                                                if let Ok(Some(callee)) = Instance::try_resolve(tcx, env, sm_def, nargs) {
-                                                    let j = intern(callee, env, &mut ids, &mut insts, &mut edges, &mut unresolved, &mut envs, &mut queue);
-                                                    edges[i].insert(j);
-                                                    handled = true;
-                                                }
+                                                component_types(t, &mut tys, 0);
+                                            }
+                                        }
+                                        for t in tys {
+                                            let nargs = tcx.mk_args(&[t.into(), s_param]);
+                                            if let Ok(Some(callee)) = Instance::try_resolve(tcx, env, sm_def, nargs) {
+                                                let j = intern(callee, env, &mut ids, &mut insts, &mut edges, &mut unresolved, &mut envs, &mut queue);
+                                                edges[i].insert(j);
+                                                handled = true;
                                             }
                                         }
                                     }
@@ -969,5 +1025,6 @@ fn extract<'tcx>(tcx: TyCtxt<'tcx>) -> J {
         ("unsafe", J::A(unsafe_inv)),
         ("graph", J::O(vec![("roots", J::A(roots_found)), ("nodes", J::A(graph_nodes))])),
         ("extern_docs", J::OD(docs)),
+        ("root_aliases", J::A(aliases)),
     ])
 }
